@@ -35,6 +35,49 @@ def run(ctx: RuleContext):
     ctx.sub(check_identifier_form, ctx)
     ctx.sub(check_mode_table, ctx)
     ctx.reuse("C09.5", check_failed_check_binds_no_structure, ctx)
+    ctx.sub(check_structure_before_leaves, ctx)
+
+
+def check_structure_before_leaves(ctx):
+    """C09.6: 'using a structure name that is not yet bound inside a composite raises AnnotationError' -- for
+    every candidate, also one whose leaves are of the wrong type: the structure stage (where the names are
+    resolved) is passed on every path to the leaf checks, so a leaf that fails cannot turn the misuse into a
+    plain `False`."""
+    from ..typestate import NoReturn
+
+    m = ctx.model
+    f = _check_fn(ctx)
+    g = NoReturn(m).cfg(f)
+    hdrs = [n for n in g.live_nodes() if n.kind == "for" and (norm(n.ast.iter) == "leaves" or (isinstance(n.ast.iter, ast.Call) and norm(n.ast.iter.func) == "enumerate"
+                                                                                                   and n.ast.iter.args and norm(n.ast.iter.args[0]) == "leaves"))]
+    stests = [n for n in g.live_nodes() if n.kind == "test" and norm(n.ast) in ("cls.structure is not None", "cls.structure is None", "not cls.structure is None")]
+    # the structure test that guards the structure stage is the one that is not inside the leaves loop
+    loop_nodes = set()
+    for h in hdrs:
+        starts = [s_ for k, s_ in h.succ if k == "loop"]
+        if starts:
+            loop_nodes |= g.reach_from(starts[0], avoid=lambda n: n is h)
+    stage = [n for n in stests if n.id not in loop_nodes]
+    if not stage:
+        # the structure stage lives in a helper: the call of a function that reads `<x>.structure`
+        from ..core import region
+        from ..roles import node_calls
+
+        for n in g.live_nodes():
+            if n.id in loop_nodes:
+                continue
+            for c_ in node_calls(n):
+                t_ = m.resolve_call(f, c_)
+                if t_.kind == "func" and any(isinstance(x, ast.Attribute) and x.attr == "structure" for h_ in region(m, t_.target, depth=2) for x in ast.walk(h_.node)) \
+                        and any(isinstance(x, ast.Subscript) and "memo" in norm(x.value) for h_ in region(m, t_.target, depth=2) for x in ast.walk(h_.node)):
+                    stage.append(n)
+    need(len(hdrs) == 1 and stage, "C09.6: the leaves loop / the structure stage of PyTree._check were not both found")
+    dom = g.dominators()
+    if not any(s_.id in dom[hdrs[0].id] for s_ in stage):
+        ctx.bad("C09.6", f, hdrs[0].ast, "the leaves are checked before the structure string is resolved: for a candidate with a wrong-typed leaf an unbound name in a "
+                "composite structure ('S T', 'T ...', '... T') gives a plain False instead of AnnotationError", construct="leaf checks before the structure stage")
+    else:
+        ctx.ok("C09.6", f.qualname, "the structure stage precedes the leaf checks on every path")
 
 
 def check_failed_check_binds_no_structure(ctx):
